@@ -2,7 +2,7 @@
 (* C14 Formatting inside delimiters does not change meaning (tokeniser part). *)
 (* For one instance of every tag kind and expression form, written in its     *)
 (* canonical spelling, every re-spelling is generated that puts one of        *)
-(*   nothing (only where CanAbut) | blank | TAB | LF | CR LF | two blanks     *)
+(*   nothing (only where CanAbut) | blank | TAB | LF | CR LF | two blanks | CR *)
 (* at every token boundary inside the delimiters; string quotes are switched  *)
 (* and '-' markers added where no white space is adjacent.  Theorem checked   *)
 (* by TLC on Lexer.tla: the non-space tokens of every re-spelling are the     *)
@@ -23,7 +23,10 @@ Snips == <<
   "{% if a %}", "{% elseif a == 1 %}", "{% else %}", "{% endif %}", "{% for k, v in s if v %}", "{% endfor %}", "{% set x = a ~ b %}",
   "{% include 'p' with {a: 1} only %}", "{% macro m(a, b) %}", "{% import 'p' as q %}", "{% from 'p' import a as b, c %}",
   "{% use 'p' with a as b %}", "{% filter f|g %}", "{% block b %}", "{% extends 'p' %}", "{% embed 'p' %}", "{% endembed %}", "{% do a %}",
-  "{% verbatim %}", "{% endverbatim %}", "{% set x %}", "{% endset %}", "{% endblock %}", "{% endmacro %}", "{% endfilter %}" >>
+  "{% verbatim %}", "{% endverbatim %}", "{% set x %}", "{% endset %}", "{% endblock %}", "{% endmacro %}", "{% endfilter %}",
+  (* an assignment above the extends tag that the extends expression reads: what stands above is decided by the order of the
+     tags in the source, which no formatting changes *)
+  "{% set x = 'q' %}", "{% extends x ~ '' %}" >>
 
 (* what completes a snippet to a template that parses and renders: <<before, after>> *)
 Wrap(n) == LET sn == Snips[n] IN
@@ -48,11 +51,13 @@ Wrap(n) == LET sn == Snips[n] IN
     [] sn = "{% extends 'p' %}" -> <<"", "{% block a %}c{% endblock %}">>
     [] sn = "{% use 'p' with a as b %}" -> <<"{% extends 'q' %}", "">>
     [] sn = "{% set x = a ~ b %}" -> <<"", "{{ x }}">>
+    [] sn = "{% set x = 'q' %}" -> <<"wwwwwwww", "{%extends x %}{% block a %}c{% endblock %}">>
+    [] sn = "{% extends x ~ '' %}" -> <<"wwwwwwww{%set x='q'%}", "{% block a %}c{% endblock %}">>
     [] sn = "{% import 'p' as q %}" -> <<"", "{{ q.a(1) }}">>
     [] sn = "{% from 'p' import a as b, c %}" -> <<"", "{{ b(1) }}{{ c() }}">>
     [] OTHER -> <<"", "">>
 
-Seps == << <<>>, <<32>>, <<9>>, <<10>>, <<13, 10>>, <<32, 32>> >>
+Seps == << <<>>, <<32>>, <<9>>, <<10>>, <<13, 10>>, <<32, 32>>, <<13>> >>      \* the last: a carriage return on its own
 (* a delimiter token carries its white-space-control marker ({%- and -%}); the marker is formatting, not meaning *)
 NoMarker(t) == IF t.typ \in {"PRINT_OPEN", "TAG_OPEN", "PRINT_CLOSE", "TAG_CLOSE"} THEN SelectSeq(t.val, LAMBDA b : b # 45) ELSE t.val
 NonSpace(toks) == LET ns == SelectSeq(toks, LAMBDA t : t.typ \notin {"WHITESPACE", "EOF"}) IN
@@ -121,7 +126,8 @@ AllAtOnce(n, ts) ==
   { [q \in 1..(Len(ts) - 1) |-> IF q \in Vary(ts) /\ CanAbut(ts[q], ts[q + 1]) THEN <<>> ELSE CanonSep(n, q)],
     [q \in 1..(Len(ts) - 1) |-> IF q \in Vary(ts) THEN <<10>> ELSE CanonSep(n, q)],
     [q \in 1..(Len(ts) - 1) |-> IF q \in Vary(ts) THEN <<9>> ELSE CanonSep(n, q)],
-    [q \in 1..(Len(ts) - 1) |-> IF q \in Vary(ts) THEN <<13, 10>> ELSE CanonSep(n, q)] }
+    [q \in 1..(Len(ts) - 1) |-> IF q \in Vary(ts) THEN <<13, 10>> ELSE CanonSep(n, q)],
+    [q \in 1..(Len(ts) - 1) |-> IF q \in Vary(ts) THEN <<13>> ELSE CanonSep(n, q)] }
 Init == v_lvl = 0 /\ v_idx = <<0, <<>>, 0>>
 Next == \/ v_lvl = 0 /\ v_lvl' = 1 /\ \E n \in 1..Len(Snips) : v_idx' = <<n, <<>>, 0>>
         \/ v_lvl = 1 /\ v_lvl' = 2 /\ \E sv \in SepVectors(v_idx[1], Canon(v_idx[1])) : v_idx' = <<v_idx[1], sv, 0>>
